@@ -19,25 +19,32 @@ let mix (i : int) : Z.t =
   let z = (Z.logxor z (Z.shift_right z 27)) *% Z.of_string "0x94D049BB133111EB" in
   Z.logxor z (Z.shift_right z 31)
 let value vf i : coq_N = if vf = 0 then n (1000 + 7 * i) else n_of_z (mix i)
+(* values of the second vector `b` (another generator; the model never compares them with a's) *)
+let value_b vf i : coq_N =
+  if vf = 0 then n_of_z (Z.logor (Z.of_string "0xB5B5000000000000") (Z.of_int (13 * i + 5)))
+  else n_of_z (mix (i lxor 0x515151510000))
 
-type cfg = { fmt : string; vf : int; st : bool; fine : bool; pre : int list; w : int list;
+(* writer items: (is it the second vector b?, number of values pushed before write()) *)
+type cfg = { fmt : string; vf : int; st : bool; fine : bool; pre : (bool * int) list; w : (bool * int) list; hasb : bool;
              readers : (string * string) list list; hints : string list; sched : (int * bool) list }
 
 let parse (toks : string list) : cfg =
-  let c = ref { fmt = "raw"; vf = 0; st = false; fine = false; pre = []; w = []; readers = []; hints = []; sched = [] } in
+  let c = ref { fmt = "raw"; vf = 0; st = false; fine = false; pre = []; w = []; hasb = false; readers = []; hints = []; sched = [] } in
   L.iter (fun t ->
     match S.index_opt t '=' with
     | None -> ()
     | Some i ->
       let k = S.sub t 0 i and v = S.sub t (i + 1) (S.length t - i - 1) in
-      let ints sep = L.filter_map (fun x -> if x = "" then None else Some (int_of_string x)) (S.split_on_char sep v) in
+      let items sep = L.filter_map (fun x -> if x = "" then None
+                       else if x.[0] = 'b' then Some (true, int_of_string (S.sub x 1 (S.length x - 1)))
+                       else Some (false, int_of_string x)) (S.split_on_char sep v) in
       (match k with
        | "fmt" -> c := { !c with fmt = v }
        | "vf" -> c := { !c with vf = int_of_string v }
        | "st" -> c := { !c with st = (v = "1") }
        | "g" -> c := { !c with fine = (v = "f") }
-       | "pre" -> c := { !c with pre = L.filter (fun x -> x <> 0) (ints '+') }
-       | "w" -> c := { !c with w = ints ',' }
+       | "pre" -> c := { !c with pre = L.filter (fun x -> x <> (false, 0)) (items '+') }
+       | "w" -> c := { !c with w = items ',' }
        | "r" -> let ops = L.filter_map (fun o -> if o = "" then None else
                     Some (match S.index_opt o ':' with
                           | Some j -> (S.sub o 0 j, S.sub o (j + 1) (S.length o - j - 1))
@@ -49,7 +56,7 @@ let parse (toks : string list) : cfg =
                     let x = if blk then S.sub x 0 (S.length x - 1) else x in
                     Some ((if x = "w" then 0 else int_of_string x), blk)) (S.split_on_char ',' v) }
        | _ -> ())) toks;
-  !c
+  { !c with hasb = L.exists fst (!c.pre @ !c.w) }
 
 (* ---------------------------------------------------------------------------------------------- *)
 (* a uniform view of the two models *)
@@ -68,25 +75,64 @@ let exec (toks : string list) : string list =
   let hint_field p = L.find_map (fun h -> if S.length h > 0 && h.[0] = p then Some (S.sub h 1 (S.length h - 1)) else None) c.hints in
   let flen0 = n_of_string (Option.value (hint_field 'F') ~default:"1048576") in
   let start0 = n_of_string (Option.value (hint_field 'S') ~default:"0") in
-  let whints = ref (L.filter (fun h -> S.length h > 0 && h.[0] <> 'F' && h.[0] <> 'S') c.hints) in
+  let startb = n_of_string (Option.value (hint_field 'T') ~default:"0") in
+  let whints = ref (L.filter (fun h -> S.length h > 0 && h.[0] <> 'F' && h.[0] <> 'S' && h.[0] <> 'T') c.hints) in
   let pp = n (ni Consts.coq_MAX_UNCOMPRESSED_PAGE_SIZE / 8) in
-  let m = ref (if comp then Comp (cs_init start0 Consts.coq_NEW_REGION_RESERVED flen0 pp)
-               else Raw (rs_init start0 Consts.coq_NEW_REGION_RESERVED flen0)) in
-  let rstep l = match !m with Raw s -> (match rs_step s l with Some s' -> m := Raw s'; true | None -> false) | _ -> false in
-  let cstep l = match !m with Comp s -> (match cs_step s l with Some s' -> m := Comp s'; true | None -> false) | _ -> false in
+  let mk_inst st = ref (if comp then Comp (cs_init st Consts.coq_NEW_REGION_RESERVED flen0 pp)
+                        else Raw (rs_init st Consts.coq_NEW_REGION_RESERVED flen0)) in
+  (* one instance of the step model per vector: `ma` = the vector the readers read, `mb` = the second vector of the
+     writer thread (no readers).  The writer's current write() works on `!tgt`; the OTHER instance sees its placements
+     (LWOther / KOther, guarded by the freshness guard) and its file growths (LWOtherGrow / KOtherGrow). *)
+  let ma = mk_inst start0 and mb = mk_inst startb in
+  let tgt = ref ma in
+  let other () = if !tgt == ma then mb else ma in
+  let rstep_on inst l = match !inst with Raw s -> (match rs_step s l with Some s' -> inst := Raw s'; true | None -> false) | _ -> false in
+  let cstep_on inst l = match !inst with Comp s -> (match cs_step s l with Some s' -> inst := Comp s'; true | None -> false) | _ -> false in
+  let rstep l = rstep_on !tgt l and cstep l = cstep_on !tgt l in          (* writer steps *)
+  let arstep l = rstep_on ma l and acstep l = cstep_on ma l in            (* reader steps *)
   let must b what = if not b then raise (Model_stuck what) in
-  let reg () = match !m with Raw s -> s.rs_reg | Comp s -> s.cs_reg in
-  let slen () = match !m with Raw s -> s.rs_slen | Comp s -> s.cs_slen in
-  let flen () = match !m with Raw s -> s.rs_flen | Comp s -> s.cs_flen in
-  let hist () = match !m with Raw s -> s.rs_hist | Comp s -> s.cs_hist in
-  let log () = match !m with Raw s -> s.rs_log | Comp s -> s.cs_log in
-  let suffix () = let r = reg () in
-    Printf.sprintf "%s,%s,%s %s %s" (string_of_n r.r_start) (string_of_n r.r_len) (string_of_n r.r_res) (string_of_n (slen ())) (string_of_n (flen ())) in
+  let reg_of inst = match !inst with Raw s -> s.rs_reg | Comp s -> s.cs_reg in
+  let slen_of inst = match !inst with Raw s -> s.rs_slen | Comp s -> s.cs_slen in
+  let reg () = reg_of !tgt in
+  let slen () = slen_of ma in
+  let flen () = match !(!tgt) with Raw s -> s.rs_flen | Comp s -> s.cs_flen in
+  let hist () = match !ma with Raw s -> s.rs_hist | Comp s -> s.cs_hist in
+  let log () = match !ma with Raw s -> s.rs_log | Comp s -> s.cs_log in
+  let suffix () = let r = reg_of ma in
+    Printf.sprintf "%s,%s,%s %s %s" (string_of_n r.r_start) (string_of_n r.r_len) (string_of_n r.r_res) (string_of_n (slen ()))
+      (string_of_n (match !ma with Raw s -> s.rs_flen | Comp s -> s.cs_flen))
+    ^ (if c.hasb then let b = reg_of mb in
+         Printf.sprintf " b=%s,%s,%s,%s" (string_of_n b.r_start) (string_of_n b.r_len) (string_of_n b.r_res) (string_of_n (slen_of mb))
+       else "") in
   let lt a b = Z.lt (z_of_n a) (z_of_n b) in
   let add a b = n_of_z (Z.add (z_of_n a) (z_of_n b)) in
 
   (* ------------------------------------------------------------------ writer *)
-  let next_val = ref 0 in
+  let next_val = ref 0 and next_val_b = ref 0 in
+  (* the allocator's answer for the current write() as the OTHER vector sees it: bytes of a foreign region land there *)
+  let place_other () =
+    if c.hasb then begin
+      let (ns, nr) = match !(!tgt) with
+        | Raw s -> (match s.rs_w with WInRes nr -> (s.rs_reg.r_start, nr) | WRelRes (ns, nr) -> (ns, nr) | _ -> raise (Model_stuck "place"))
+        | Comp s -> (match s.cs_w with CInRes (_, nr) -> (s.cs_reg.r_start, nr) | CRelRes (_, ns, nr) -> (ns, nr) | _ -> raise (Model_stuck "place")) in
+      let o = other () in
+      must (if comp then cstep_on o (KOther (ns, nr)) else rstep_on o (LWOther (ns, nr)))
+        (if o == ma then "placement-of-b-overlaps-an-extent-of-a-still-protected (freshness guard)"
+         else "placement-of-a-overlaps-an-extent-of-b (freshness guard)")
+    end in
+  (* file growth: the mmap write lock is one per database, the readers' guards are counted in a's instance *)
+  let grow_both () =
+    let own () = if comp then cstep KGrowFile else rstep LWGrowFile in
+    if not c.hasb then own ()
+    else begin
+      let t = match !(!tgt) with
+        | Raw s -> (match s.rs_w with WInRes nr -> add s.rs_reg.r_start nr | WRelRes (ns, nr) -> add ns nr | _ -> raise (Model_stuck "growtarget"))
+        | Comp s -> (match s.cs_w with CInRes (_, nr) -> add s.cs_reg.r_start nr | CRelRes (_, ns, nr) -> add ns nr | _ -> raise (Model_stuck "growtarget")) in
+      let o = other () in
+      let foreign () = if comp then cstep_on o (KOtherGrow t) else rstep_on o (LWOtherGrow t) in
+      if !tgt == ma then (if own () then (must (foreign ()) "othergrow"; true) else false)
+      else (if foreign () then (must (own ()) "growfile"; true) else false)
+    end in
   let cur_hint = ref "f" and cur_sizes = ref [] in
   let take_hint () =
     (match !whints with
@@ -115,11 +161,13 @@ let exec (toks : string list) : string list =
   and w_begin () : outcome =
     match !w_ops with
     | [] -> Done
-    | cnt :: rest ->
+    | (isb, cnt) :: rest ->
       w_ops := rest;
       take_hint ();
+      tgt := (if isb then mb else ma);
       for _ = 1 to cnt do
-        let v = value c.vf !next_val in incr next_val;
+        let v = if isb then (let v = value_b c.vf !next_val_b in incr next_val_b; v)
+                else (let v = value c.vf !next_val in incr next_val; v) in
         must (if comp then cstep (KPush v) else rstep (LPush v)) "push"
       done;
       if comp then c_begin () else begin
@@ -133,7 +181,7 @@ let exec (toks : string list) : string list =
     w_results := !w_results @ [res];
     (match !w_ops with [] -> Done | _ -> seq "op" "h:op-start" w_begin)
   and r_body () : outcome =
-    match !m with
+    match !(!tgt) with
     | Raw s ->
       if L.length (rs_pushed s) = 0 then (must (rstep LWNoop) "noop"; w_end "ok" ())
       else if not (lt (reg ()).r_res (rs_newlen s)) then begin
@@ -141,11 +189,12 @@ let exec (toks : string list) : string list =
         seq "fits" "write_with:fits:after-data" r_setlen
       end else begin
         must (rstep (LWReserve (ghint ()))) "reserve (allocator hint rejected by the freshness guard)";
+        place_other ();
         r_grow ()
       end
     | _ -> Done
   and r_grow () : outcome =
-    match !m with
+    match !(!tgt) with
     | Raw s ->
       (match s.rs_w with
        | WInRes nr ->
@@ -157,7 +206,7 @@ let exec (toks : string list) : string list =
        | _ -> raise (Model_stuck "grow"))
     | _ -> Done
   and r_growfile k () : outcome =
-    if rstep LWGrowFile then k () else (w_pending := r_growfile k; Blocked)
+    if grow_both () then k () else (w_pending := r_growfile k; Blocked)
   and r_copyin () = must (rstep LWCopyIn) "copyin"; r_setlen ()
   and r_before_copy () =
     seq "before-copy" "write_with:relocate:before-copy" (fun () ->
@@ -170,7 +219,7 @@ let exec (toks : string list) : string list =
       seq "raw-write:after-publish" "raw-write:after-publish" (w_end "ok"))
   (* compressed *)
   and c_begin () : outcome =
-    match !m with
+    match !(!tgt) with
     | Comp s ->
       (match cs_plan s !cur_sizes with
        | None -> must (cstep (KBegin !cur_sizes)) "begin-fail"; w_end "err" ()
@@ -178,11 +227,11 @@ let exec (toks : string list) : string list =
          w_path := (match pl.pl_fast with Some _ -> "fast" | None -> "slow");
          let go () =
            must (cstep (KBegin !cur_sizes)) "begin";
-           (match !m with
+           (match !(!tgt) with
             | Comp s' ->
               (match s'.cs_w with
                | CFitsData _ -> seq "fits" "write_with:fits:after-data" c_setlen
-               | CPlanned _ -> must (cstep (KReserve (ghint ()))) "reserve (allocator hint rejected by the freshness guard)"; c_grow ()
+               | CPlanned _ -> must (cstep (KReserve (ghint ()))) "reserve (allocator hint rejected by the freshness guard)"; place_other (); c_grow ()
                | CFailed -> w_end "err" ()
                | _ -> raise (Model_stuck "begin-phase"))
             | _ -> Done) in
@@ -191,7 +240,7 @@ let exec (toks : string list) : string list =
          if !w_path = "slow" then seq "after-decode" "comp-write:slow:after-decode" go else go ())
     | _ -> Done
   and c_grow () : outcome =
-    match !m with
+    match !(!tgt) with
     | Comp s ->
       (match s.cs_w with
        | CInRes (_, nr) ->
@@ -203,7 +252,7 @@ let exec (toks : string list) : string list =
        | _ -> raise (Model_stuck "cgrow"))
     | _ -> Done
   and c_growfile k () : outcome =
-    if cstep KGrowFile then k () else (w_pending := c_growfile k; Blocked)
+    if grow_both () then k () else (w_pending := c_growfile k; Blocked)
   and c_copy_in () = must (cstep KCopy) "copy"; c_setlen ()
   and c_before_copy () =
     seq "before-copy" "write_with:relocate:before-copy" (fun () ->
@@ -247,10 +296,10 @@ let exec (toks : string list) : string list =
   let emit s = out := s :: !out in
   let reader_prog (rid : int) (ops : (string * string) list) : unit -> outcome =
     let r = n rid in
-    let load () = must (if comp then cstep (KRLoad r) else rstep (LRLoad r)) "load" in
-    let snap () = must (if comp then cstep (KRSnap r) else rstep (LRSnap r)) "snap" in
-    let guard () = must (if comp then cstep (KRGuard r) else rstep (LRGuard r)) "guard" in
-    let drop () = must (if comp then cstep (KRDrop r) else rstep (LRDrop r)) "drop" in
+    let load () = must (if comp then acstep (KRLoad r) else arstep (LRLoad r)) "load" in
+    let snap () = must (if comp then acstep (KRSnap r) else arstep (LRSnap r)) "snap" in
+    let guard () = must (if comp then acstep (KRGuard r) else arstep (LRGuard r)) "guard" in
+    let drop () = must (if comp then acstep (KRDrop r) else arstep (LRDrop r)) "drop" in
     let rseq stop_it shown next = if stop_it then (r_pending.(rid) <- next; Stop shown) else next () in
     let rec run_ops k ops () : outcome =
       match ops with
@@ -272,7 +321,7 @@ let exec (toks : string list) : string list =
           (* all reads under one snapshot; ok iff every logged result is the pushed value *)
           let before = L.length (log ()) in
           for i = from to from + cnt - 1 do
-            must (if comp then cstep (KRRead (r, n i)) else rstep (LRRead (r, n i))) "read"
+            must (if comp then acstep (KRRead (r, n i)) else arstep (LRRead (r, n i))) "read"
           done;
           let lg = log () in
           let fresh = L.filteri (fun j _ -> j < L.length lg - before) lg in
@@ -286,7 +335,7 @@ let exec (toks : string list) : string list =
             rseq true n_rd (fun () ->
               if comp then
                 let rec plock () =
-                  if cstep (KRPages r) then rseq true n_pg (fun () -> do_reads l from cnt)
+                  if acstep (KRPages r) then rseq true n_pg (fun () -> do_reads l from cnt)
                   else (r_pending.(rid) <- plock; Blocked) in
                 plock ()
               else do_reads l from cnt)) in
@@ -364,8 +413,10 @@ let exec (toks : string list) : string list =
     end in
   finish_all 200;
   L.iteri (fun k r -> emit (Printf.sprintf "write%d %s" k r)) !w_results;
-  let r = reg () in
-  let total = L.fold_left (+) 0 c.pre + L.fold_left (+) 0 c.w in
-  ignore total;
+  let r = reg_of ma in
   emit (Printf.sprintf "final len=%s values=ok region=%s,%s,%s" (string_of_n (slen ())) (string_of_n r.r_start) (string_of_n r.r_len) (string_of_n r.r_res));
+  if c.hasb then begin
+    let r = reg_of mb in
+    emit (Printf.sprintf "finalb len=%s values=ok region=%s,%s,%s" (string_of_n (slen_of mb)) (string_of_n r.r_start) (string_of_n r.r_len) (string_of_n r.r_res))
+  end;
   L.rev !out
